@@ -965,6 +965,14 @@ impl FileScheduler {
                 let orig_range = &request[orig_index];
                 let byte_offset = updated_range.start as usize;
 
+                if orig_range.is_empty() {
+                    // An empty range overlaps nothing but the caller still expects one
+                    // (empty) buffer per requested range
+                    final_bytes.push(Bytes::new());
+                    orig_index += 1;
+                    continue;
+                }
+
                 if is_overlapping(updated_range, orig_range) {
                     // We need to undo the coalescing and splitting done earlier
                     let start = orig_range.start as usize - byte_offset;
